@@ -194,6 +194,39 @@ def check_named(case):
             raise PropertyViolation(
                 f"{fname} called with default method/agg (after a to_overall call) = {got!r}, between_groups/worst_case value from first principles {e!r}; per-group rates {per}, overall {ov}"
             )
+    # the same argument objects after an in-place update of the predictions: results follow the current contents
+    if case.get("mutate") and n >= 1:
+        flipped = [1 - int(v) for v in case["y_pred"]]
+        if isinstance(Yp, list):
+            Yp[:] = flipped
+        elif isinstance(Yp, np.ndarray):
+            Yp[...] = np.asarray(flipped).reshape(Yp.shape)
+        elif isinstance(Yp, pd.Series):
+            Yp.iloc[:] = flipped
+        else:
+            Yp.iloc[:, 0] = flipped
+        yp2 = np.asarray(flipped)
+        per2 = {k: _rates(yt, yp2, wv, m) for k, m in masks.items()}
+        ov2 = _rates(yt, yp2, wv, allm)
+        for method in ("between_groups", "to_overall"):
+            e2 = {}
+            for r in ("sel", "tpr", "fpr"):
+                vals = [per2[k][r] for k in per2]
+                e2[r, "diff"] = _difference(vals, ov2[r], method)
+                e2[r, "ratio"] = _ratio(vals, ov2[r], method)
+            checks = [("demographic_parity_difference", {}, e2["sel", "diff"]),
+                      ("equal_opportunity_ratio", {}, e2["tpr", "ratio"]),
+                      ("false_positive_rate_difference", {}, e2["fpr", "diff"])]
+            for agg in ("worst_case", "mean"):
+                checks.append(("equalized_odds_difference", {"agg": agg}, _eo_combine(e2["tpr", "diff"], e2["fpr", "diff"], agg, "diff")))
+                checks.append(("equalized_odds_ratio", {"agg": agg}, _eo_combine(e2["tpr", "ratio"], e2["fpr", "ratio"], agg, "ratio")))
+            for fname, extra, e in checks:
+                if e is None:
+                    continue
+                got = _scalar(fname, getattr(fm, fname)(Yt, Yp, method=method, **extra, **kw))
+                if not M.close(got, e):
+                    raise PropertyViolation(f"{fname}(method={method}, {extra}) after the predictions were updated in place = {got!r}, first-principles value on the current contents {e!r}")
+        tags.add("inplace_update_then_recall")
     distinct = {tuple(round(v, 12) for v in p.values()) for p in per.values()}
     if len(per) >= 2 and len(distinct) >= 2:
         tags.add("nt")
@@ -441,6 +474,7 @@ def _dataset(draw, max_n=14):
         "sf_kind": draw(st.sampled_from(["list", "ndarray", "series", "dataframe"])),
         "w_kind": draw(st.sampled_from(["list", "ndarray", "series"])),
         "index": draw(gen.index_plan), "index2": draw(gen.index_plan), "index3": draw(gen.index_plan),
+        "mutate": draw(st.booleans()),
     }
 
 
